@@ -62,13 +62,33 @@ def main():
     ctx.assumptions = list(COMMON_ASSUMPTIONS)
     ctx.root = root
     level = getattr(mod, 'LEVEL', 'other')
+    # the rule engine must end whatever the analysed code looks like: a watchdog turns a runaway analysis into a fail-closed finding
+    # (seed C15-m sent the path enumeration into a 20-minute walk before the step budget of engine/schedule.py existed)
+    import signal
+
+    class AnalysisTimeout(Exception):
+        pass
+
+    def _alarm(signum, frame):
+        raise AnalysisTimeout('rule evaluation exceeded %d s' % limit)
+    limit = int(os.environ.get('VERIF_RULE_TIMEOUT_S', '600'))
+    try:
+        signal.signal(signal.SIGALRM, _alarm)
+        signal.alarm(limit)
+    except Exception:
+        pass
     try:
         proof = mod.run(ctx) or None
+        signal.alarm(0)
     except Exception as e:     # fail closed: an engine error on an unforeseen shape is reported as a finding, never a silent pass or a bare crash
         import traceback
         tb = traceback.extract_tb(e.__traceback__)
         where = '%s:%d' % (os.path.basename(tb[-1].filename), tb[-1].lineno) if tb else '?'
         proof = None
+        try:
+            signal.alarm(0)
+        except Exception:
+            pass
         ctx.fail('engine|%s|analysis-error' % prop, 'the analysis could not handle a construct of the analysed tree (%s: %s at %s); the rule fails closed - '
                  'the property is NOT shown for this tree' % (type(e).__name__, str(e)[:160], where))
     if tier == 'thorough' and not replay:
